@@ -160,7 +160,7 @@ def make_reaction(rng, fmt, pool, idx):
 
 
 def make_file(rng, fmt):
-    pool = chem.species_pool(rng, 14, ions=True, surface=(fmt in ("leeds", "uclchem", "naunet")), labels=True)
+    pool = chem.species_pool(rng, 14, ions=True, surface=(fmt in ("leeds", "uclchem", "naunet", "krome")), labels=True)
     n = rng.randint(3, 25)
     reacs = [make_reaction(rng, fmt, pool, i + 1) for i in range(n)]
     lines, datalines = [], []
